@@ -155,11 +155,37 @@ UnitaryContract(ev, M) ==
                     \/ TermBagOf(ev.pre) = TermBagOf(ev.post),
                     "no resolvable pair but the expression changed")
 
+(* -- wicks (C01) -------------------------------------------------------------- *)
+(* pre contains one operator-string object (kind "OPS") whose value is the *)
+(* determinant expectation value Fermi!VEV; post must be operator free.    *)
+OperatorFree(x) == \A k \in 1..Len(x) : \A j \in 1..Len(x[k].objs) :
+                      x[k].objs[j].k \notin {"OPS", "NO", "F", "Fd"}
+
+BlockOf(o, ev) == LET ix == ObjIdxSeq(o) IN [k \in 1..Len(ix) |-> ev.idx[ix[k]].s]
+Forbidden(o, ev) == \E r \in SeqRange(ev.a.rules) : r.nid = o.nid /\ o.k \notin {"D", "P"} /\ r.block = BlockOf(o, ev)
+TermAllowed(t, ev) == \A k \in 1..Len(t.objs) : ~Forbidden(t.objs[k], ev)
+FilterRules(x, ev) == SelectSeq(x, LAMBDA t : TermAllowed(t, ev))
+
+WicksContract(ev, M) ==
+  Clause("operator-free", OperatorFree(ev.post), "operators left in the result")
+  \o (IF OperatorFree(ev.post) THEN ValEq(ev, M, ev.pre, ev.post) ELSE <<>>)
+
+WicksRulesContract(ev, M) ==
+  WicksContract(ev, M)
+  \o Clause("excluded-block-left", \A k \in 1..Len(ev.postr) : TermAllowed(ev.postr[k], ev),
+            "a term with an excluded tensor block was returned")
+  \o (IF OperatorFree(ev.post) /\ OperatorFree(ev.postr)
+      THEN LET d == ValEq(ev, M, FilterRules(ev.post, ev), ev.postr)
+           IN IF d = <<>> THEN <<>> ELSE << <<"rules-value", d[1][2]>> >>
+      ELSE <<>>)
+
 (* -- the contract per operation ------------------------------------------ *)
 Contract(ev, M) ==
   CASE ev.op = "valpres" -> ValEq(ev, M, ev.pre, ev.post)
     [] ev.op = "simplify" -> SimplifyContract(ev, M)
     [] ev.op = "evaluate_deltas" -> DeltaContract(ev, M)
     [] ev.op = "simplify_unitary" -> UnitaryContract(ev, M)
+    [] ev.op = "wicks" -> WicksContract(ev, M)
+    [] ev.op = "wicks_rules" -> WicksRulesContract(ev, M)
     [] OTHER -> << <<"unknown-op", ev.op>> >>
 =============================================================================
